@@ -450,6 +450,22 @@ def comprehension(it, e, frame, kind):
         elt_is_var = isinstance(e.elt, ast.Name) and isinstance(g.target, ast.Name) and e.elt.id == g.target.id
         it.pure += 1
         try:
+            src_set = src.val if isinstance(src, MutSet) else (src if isinstance(src, SSet) else None)
+            if elt_is_var and src_set is not None:
+                # [x for x in S if p(x)] over a symbolic set: the members of S satisfying p (quantifier-free: S intersected with lambda p)
+                k = src_set.kind.elem
+                y = z3.Const(fresh_name("y"), k.sort)
+                cframe.locals[g.target.id] = k.wrap(y)
+                terms = []
+                for c in g.ifs:
+                    t = it.truth_term(it.eval(c, cframe))
+                    terms.append(z3.BoolVal(t) if isinstance(t, bool) else t)
+                filt = SSet(z3.SetIntersect(src_set.t, z3.Lambda([y], z3.And(*terms) if terms else z3.BoolVal(True))), KSet(k))
+                if kind == "set":
+                    return MutSet(filt)
+                r = KSeq(k, "list" if kind == "list" else "tuple").fresh("filt")
+                it.ex.assume(r.as_set() == filt)
+                return r if kind == "list" else GenResult([Chunk(r)])
             if elt_is_var and isinstance(src, SSeq):
                 def pred(x):
                     cframe.locals[g.target.id] = x
